@@ -6,8 +6,10 @@ behaviour is scripted by the case; every input dict is first parsed with the
 library's ``parse_message`` and then handed to ``ProtocolHandler.handle_message``.
 
 Space: full product  methods x ids x params shapes x handler behaviours.
-One explorer cfg is one (method, id) *block*; the block iterates every params
-shape and every handler behaviour and reports per-case counts through counters.
+One explorer cfg is one (method, id, handler behaviour) *block*; the block
+iterates every params shape and reports per-case counts through counters.
+Failing cases are re-executed one by one in a second pass (vf/twopass.py), so a
+replay file is a single input: cfg {"m","i","p","b"} = indices into the tables.
 
 Oracle (independent of the library, envelope rules from ``vf.jsonrpc_ref``):
   * nothing ever escapes ``handle_message``;
@@ -25,7 +27,7 @@ import itertools
 import json
 from typing import Any, Dict, List, Optional, Tuple
 
-from .. import core, explorer, gen, sched
+from .. import core, explorer, gen, sched, twopass
 from ..jsonrpc_ref import classify, strict_eq
 from ..vloop import new_loop
 
@@ -300,7 +302,7 @@ def build_input(mi: int, ii: int, pi: int) -> Dict[str, Any]:
 
 
 # ---------------------------------------------------------------------------
-# one block = one (method, id), every params shape x every behaviour
+# one block = one (method, id, behaviour), every params shape  (with "p": that single case)
 # ---------------------------------------------------------------------------
 def run_one(ctl: explorer.Ctl, cfg: Dict[str, Any]) -> Dict[str, Any]:
     from chuk_mcp.protocol.messages.json_rpc_message import parse_message
@@ -445,10 +447,11 @@ def run_one(ctl: explorer.Ctl, cfg: Dict[str, Any]) -> Dict[str, Any]:
                 "input": build_input(mi, ii, only_p), "behaviour": BEHAVIOURS[only_b][0], "violations": viol,
                 "counters": {"single-cases": 1}}
     # block: failing cases are handed to the second pass through counters
-    # ("fail|<sig>|m|i|p|b" = first failing case of that signature in this block)
+    # (first failing case of each signature in this block, see vf/twopass.py)
     for key, e in first.items():
         count("sig:" + key, e["n"])
-        count(f"fail|{key}|{mi}|{ii}|{e['p']}|{e['b']}")
+        rank = ((mi * len(IDS) + ii) * len(PARAMS) + e["p"]) * len(BEHAVIOURS) + e["b"]
+        count(twopass.fail_key(e["sig"], rank, {"m": mi, "i": ii, "p": e["p"], "b": e["b"]}))
     return {
         "outcome": ",".join(sorted(outcomes_seen)) or "nothing-judged",
         "method": m,
@@ -495,23 +498,10 @@ def run(tier: str, only=None) -> core.Result:
     part = "methods-x-ids-x-params-x-behaviours"
     sched.absorb(res, part, RUN, out, cfgs)
     c = res.parts[part]["counters"]
-    # second pass: per signature, the first PER_SIG failing cases (in enumeration order) are re-executed one by one;
-    # these single-case executions carry the violations (and make the replay files one input each)
-    fails: Dict[str, List[Tuple[int, int, int, int]]] = {}
-    for k in c:
-        if k.startswith("fail|"):
-            head, a, b_, p_, q_ = k.rsplit("|", 4)
-            fails.setdefault(head[5:], []).append((int(a), int(b_), int(p_), int(q_)))
-    singles = [{"m": t[0], "i": t[1], "p": t[2], "b": t[3]} for sig in sorted(fails) for t in sorted(fails[sig])[:PER_SIG]]
-    res.parts[part]["counters"] = c = {k: v for k, v in c.items() if not k.startswith("fail|")}
-    res.coverage.get("parts", {}).get(part, {})["counters"] = c
-    if singles and not out["errors"]:
-        out2 = explorer.explore(RUN, singles)
-        sched.absorb(res, "failing-cases-one-by-one", RUN, out2, singles, min_outcomes=1)
-        p2 = res.parts["failing-cases-one-by-one"]
-        if p2["violating_executions"] != len(singles) and not out2["errors"]:
-            res.harness_errors.append(f"{len(singles) - p2['violating_executions']} of {len(singles)} failing cases did not "
-                                      f"fail when executed alone")
+    # second pass: per signature the first PER_SIG failing cases (enumeration order) are re-executed one by one;
+    # those single-case executions carry the violations (replay files are one input each)
+    twopass.second_pass(res, RUN, [part], per_sig=PER_SIG)
+    c = res.parts[part]["counters"]
     space = len(ms) * len(IDS) * len(PARAMS) * len(BEHAVIOURS)
     if c.get("cases", 0) != space and not out["errors"]:
         res.harness_errors.append(f"enumeration incomplete: {c.get('cases', 0)} cases run, product is {space}")
